@@ -105,6 +105,29 @@ func roDB(variant string) *roObject {
 		db = &nd
 		_ = enc
 	}
+	if variant == "sparse" {
+		// a decoded database that holds a list without signatures in the middle (firmware writes such lists; the library leaves one
+		// behind after a list-level remove): header-only SHA-256 list between populated lists
+		one := func(t, o, d string) []byte {
+			l := signature.NewSignatureList(guidOf(typeGUIDWire, t))
+			l.AppendBytes(guidOf(ownerGUIDWire, o), sigdbData[d].bytes)
+			return l.Bytes()
+		}
+		var e2 []byte
+		e2 = append(e2, one("x509", "o1", "c1")...)
+		e2 = append(e2, wire(typeGUIDWire, "sha256")...)
+		e2 = append(e2, le32(28)...)
+		e2 = append(e2, le32(0)...)
+		e2 = append(e2, le32(48)...)
+		e2 = append(e2, one("sha256", "o1", "h1")...)
+		e2 = append(e2, one("x509", "o2", "c3")...)
+		e2 = append(e2, one("sha256", "o2", "h2")...)
+		nd, err := signature.ReadSignatureDatabase(bytes.NewReader(e2))
+		if err != nil {
+			panic(err)
+		}
+		db = &nd
+	}
 	q := func(t, o, d string) func() string {
 		return func() string {
 			g, ow := guidOf(typeGUIDWire, t), guidOf(ownerGUIDWire, o)
